@@ -11,3 +11,7 @@ package types
 // verif:func IterateProcessedTime
 //@ loop 1 forkey rev uint64, h uint64 :: ProcessedTimeKey(clienttypes.NewHeight(rev, h))
 //@ loop 1 continue [parse-back] ncalls("cb") == 1 && callarg("cb", 0) == ProcessedTimeKey(clienttypes.NewHeight(rev, h))
+
+// ---- a consensus state reports the client type of its own light client (C13: exported genesis validates) ----
+// verif:func (ConsensusState).ClientType
+//@ ensures [type-agree] result == (&ClientState{}).ClientType()
